@@ -21,6 +21,7 @@ From GoGit Require Import Model.CommitHead Spec.GitCommitHead Proofs.C28Head.
 From GoGit Require Model.TreeObj Model.WriteTree Spec.GitWriteTree Proofs.C28Order.
 From GoGit Require Import Model.IndexGlob Spec.GitIndexGlob Proofs.C28Glob.
 From GoGit Require Proofs.C28IdFlat.
+From GoGit Require Import Proofs.C28Mv.
 Import ListNotations.
 Local Open Scope N_scope.
 
@@ -243,6 +244,19 @@ Print Assumptions C28_rm_untracked_dir_refuted.
 Theorem C28_mv_eq_partial : forall s from to, mv_guard s from to = true -> g_mv s from to = s_mv s from to.
 Proof. exact mv_eq. Qed.
 Print Assumptions C28_mv_eq_partial.
+
+(* mv onto a destination that Lstat does not find but the index still holds (tracked file deleted from the
+   worktree, deletion not staged): the entry of `to` is replaced, not doubled — an index with one entry per
+   path keeps one entry per path, exactly one named `to` (with the id of the source entry), none named `from`,
+   every other path untouched, and the index is one entry shorter when `to` was tracked *)
+Theorem C28_mv_replaces_tracked_dest : forall s from to s',
+  uniq_idx (st_index s) -> g_mv s from to = ROk s' ->
+  uniq_idx (st_index s') /\ count_path (st_index s') to = 1%nat /\ count_path (st_index s') from = 0%nat /\
+  (exists e e', find_i (st_index s) from = Some e /\ find_i (st_index s') to = Some e' /\ ie_hash e' = ie_hash e) /\
+  (forall q, bytes_eqb from q = false -> bytes_eqb to q = false -> find_i (st_index s') q = find_i (st_index s) q) /\
+  List.length (st_index s') = (if IndexOps.is_some (find_i (st_index s) to) then List.length (st_index s) - 1 else List.length (st_index s))%nat.
+Proof. exact mv_replaces_tracked_dest. Qed.
+Print Assumptions C28_mv_replaces_tracked_dest.
 
 (* mv of a modified file: the entry keeps the old id but takes the new file's
    stat data, so the metadata shortcut then calls the modified file clean *)
